@@ -346,7 +346,8 @@ pub fn f_z() -> Vec<f64> {
 }
 pub fn f_m() -> Vec<f64> {
     let mut v = f_z();
-    v.extend([next_up(NO_DATA), next_down(NO_DATA), -1e38]);
+    // (-1e38 is the threshold of the specification, -5e38 lies between it and the constant the format uses in practice)
+    v.extend([next_up(NO_DATA), next_down(NO_DATA), -1e38, -5e38, -9.99e38]);
     v
 }
 pub fn alphabet_for_dim(d: usize) -> Vec<f64> {
